@@ -12,6 +12,8 @@ from vlib import c18_api as api_lines
 from vlib import c18_gen as gen
 from vlib import exa, textgen
 from vlib.refwire import build, codec
+from hypothesis import strategies as st
+
 from vlib.runner import Engine, Violation, exception_signature, innermost_repo_frame
 
 PROPERTY = 'C18'
@@ -1314,6 +1316,61 @@ ENGINES = [
     Engine('flow-text', gen.flow_cases, _tagged('flow', check_flow), quick=250, thorough=6000, batch=125, fixed_cases=fixed_flow),
     Engine('api-lines', api_lines.line_cases, _tagged('lines', check_api_lines), quick=300, thorough=8000, batch=150, fixed_cases=fixed_lines, quick_s=30.0),
 ]
+# ---------------------------------------------------------------------------- the split keyword
+
+
+@st.composite
+def split_cases(draw) -> dict:
+    """`split /N` (one definition standing for every /N inside the prefix) in each spelling that takes the route keywords"""
+    v6 = draw(st.integers(0, 3)) == 0
+    if v6:
+        mask = draw(st.sampled_from([32, 33, 48, 63, 125]))
+        prefixes = [f'2001:db8:{i}::/{mask}' if mask >= 48 else f'2001:{"db8" if i == 0 else "db9"}::/{mask}' for i in range(2)]
+        nexthop = '2001:db8::1'
+    else:
+        mask = draw(st.sampled_from([8, 16, 23, 24, 25, 29]))
+        prefixes = [f'10.{i + 1}.0.0/{mask}' if mask >= 16 else f'{10 + i}.0.0.0/{mask}' for i in range(2)]
+        nexthop = '192.0.2.1'
+    spelling = draw(st.sampled_from(['route', 'route', 'attributes', 'attributes', 'attributes']))
+    entry = draw(st.sampled_from({'route': ['parse_route_text', 'api', 'api-legacy', 'config-flat', 'config-block'], 'attributes': ['api', 'api-legacy', 'config-flat']}[spelling]))
+    return {
+        'prefixes': prefixes[: draw(st.sampled_from([1, 2])) if spelling == 'attributes' else 1],
+        'split': mask + draw(st.sampled_from([1, 1, 2, 3])),
+        'nexthop': nexthop,
+        'spelling': spelling,
+        'entry': entry,
+        'where': draw(st.sampled_from(['before-med', 'after-med'])),
+    }
+
+
+def check_split(case: dict) -> dict:
+    import ipaddress
+
+    words = ['med 7', f'split /{case["split"]}'] if case['where'] == 'after-med' else [f'split /{case["split"]}', 'med 7']
+    if case['spelling'] == 'route':
+        cl = [['prefix', f'route {case["prefixes"][0]}'], ['next-hop', f'next-hop {case["nexthop"]}']] + [[w.split(' ')[0], w] for w in words]
+        form = 'route'
+    else:
+        text = f'attributes next-hop {case["nexthop"]} ' + ' '.join(words) + ' nlri ' + ' '.join(case['prefixes'])
+        cl = [['prefix', text]]
+        # through a configuration file the statement sits in a static section like a route; on the API it is `announce attributes`
+        form = 'route' if case['entry'] == 'config-flat' else 'attributes'
+    outcome = attempt_route({'form': form, 'entry': case['entry']}, cl)
+    what = f'"{gen.text_of(cl)}" via {case["entry"]}'
+    if outcome.kind == 'exception':
+        raise Violation(exception_signature('split:parse', outcome.exc), f'{outcome.exc!r} for {what}')
+    if outcome.kind != 'routes':
+        raise Violation(f'split:refused:{case["spelling"]}', f'{what}: {outcome.reason[:200]}')
+    want = sorted(str(sub) for p in case['prefixes'] for sub in ipaddress.ip_network(p).subnets(new_prefix=case['split']))
+    got = sorted(str(ipaddress.ip_network(str(r.nlri).split(' ')[0])) for r in outcome.routes)
+    if got != want:
+        kind = 'not-applied' if got == sorted(str(ipaddress.ip_network(p)) for p in case['prefixes']) else 'other-routes'
+        raise Violation(f'split:{kind}:{case["spelling"]}', f'{what}: the definition stands for {want[:6]}... ({len(want)} routes), exabgp holds {got[:6]} ({len(got)} routes)')
+    return {'nontrivial': True, 'classes': [f'split:{case["spelling"]}:{case["entry"]}', 'split']}
+
+
+ENGINES.append(Engine('split-keyword', split_cases, check_split, quick=60, thorough=2000, batch=60))
+
 for _engine in ENGINES[:3]:
     # a parser that does not come back is no answer at all (met: an unterminated bgp-prefix-sid list in a configuration file)
     _engine.case_timeout = 60
